@@ -290,6 +290,7 @@ type expectation struct {
 	Files   map[string]string   // tag -> file name prefix that must be non-empty
 	Console map[string]bool     // tag -> line expected on the console stream
 	Types   []string            // plugin types instantiated
+	Caller  bool                // the enableCaller property of this configuration
 }
 
 var tagNames = []string{"_c15_a", "_c15_b", "_c15_c"}
@@ -304,8 +305,10 @@ var tags = func() map[string]*log.Tag {
 func attr(name, val string) field { return field{Name: name, Val: val, Attr: true} }
 
 func genConfig(t *rapid.T, dir string) (config, expectation) {
-	c := config{Props: map[string]string{"enableCaller": "false", "bufferCap": "10KB"}, Appenders: map[string]*node{}, Loggers: map[string]*node{}, Dir: dir}
-	exp := expectation{Probes: map[string]probeExp{}, Routes: map[string][]string{}, Files: map[string]string{}, Console: map[string]bool{}}
+	caller := rapid.Bool().Draw(t, "enableCaller")
+	c := config{Props: map[string]string{"enableCaller": fmt.Sprint(caller), "fastCaller": rapid.SampledFrom([]string{"false", "true"}).Draw(t, "fastCaller"), "bufferCap": rapid.SampledFrom([]string{"10KB", "1KB", "4 kb"}).Draw(t, "bufferCap")},
+		Appenders: map[string]*node{}, Loggers: map[string]*node{}, Dir: dir}
+	exp := expectation{Probes: map[string]probeExp{}, Routes: map[string][]string{}, Files: map[string]string{}, Console: map[string]bool{}, Caller: caller}
 	np := rapid.IntRange(1, 2).Draw(t, "nprobes")
 	var sinks []string
 	for i := 0; i < np; i++ {
@@ -587,6 +590,7 @@ var console = &vk.Capture{}
 
 type observed struct {
 	Probes   map[string]map[string]string
+	CallerOn map[string][]bool // appender name -> per received event: did it carry a file name
 	Received map[string][]int64 // appender name -> ids
 	Files    map[string]bool
 	Console  string
@@ -609,7 +613,7 @@ func refresh(m map[string]string) (err error, panicked any, hung bool) {
 }
 
 func observe(c config, exp expectation) (observed, error) {
-	o := observed{Probes: map[string]map[string]string{}, Received: map[string][]int64{}, Files: map[string]bool{}}
+	o := observed{Probes: map[string]map[string]string{}, Received: map[string][]int64{}, Files: map[string]bool{}, CallerOn: map[string][]bool{}}
 	done, p := vk.Within(20*time.Second, func() {
 		for i, tn := range tagNames {
 			log.Error(context.Background(), tags[tn], log.Int("id", int64(i+1)))
@@ -629,12 +633,16 @@ func observe(c config, exp expectation) (observed, error) {
 	for name, p := range probeEv {
 		p.mu.Lock()
 		o.Received[name] = append([]int64{}, p.events...)
+		for _, f := range p.files {
+			o.CallerOn[name] = append(o.CallerOn[name], f != "")
+		}
 		p.mu.Unlock()
 	}
 	probeMu.Unlock()
 	if r := vk.Rec("rec"); r != nil {
 		for _, it := range r.Items() {
 			o.Received["rec"] = append(o.Received["rec"], it.ID)
+			o.CallerOn["rec"] = append(o.CallerOn["rec"], it.File != "")
 		}
 	}
 	for _, ids := range o.Received {
@@ -665,6 +673,13 @@ func checkExpectation(o observed, exp expectation) error {
 		for _, k := range ks {
 			if got[k] != want[k] {
 				return fmt.Errorf("probe %s attribute/element %q resolved to %q, declared (configured value, else default) %q", name, k, got[k], want[k])
+			}
+		}
+	}
+	for a, flags := range o.CallerOn {
+		for _, on := range flags {
+			if on != exp.Caller {
+				return fmt.Errorf("the configuration sets the enableCaller property to %v, but an event at appender %s carried a source location: %v (the top-level property was not applied as configured)", exp.Caller, a, on)
 			}
 		}
 	}
@@ -812,7 +827,7 @@ func firstLine(err error) string {
 
 func injectFault(t *rapid.T, c config, m map[string]string) (string, bool) {
 	probe := c.Appenders["p1"]
-	kind := rapid.SampledFrom([]string{"ill-typed", "out-of-range", "unknown-type", "missing-required", "dangling-ref", "absent-property", "conflicting-keys", "missing-type"}).Draw(t, "fault")
+	kind := rapid.SampledFrom([]string{"ill-typed", "out-of-range", "unknown-type", "missing-required", "dangling-ref", "absent-property", "conflicting-keys", "missing-type", "bad-property"}).Draw(t, "fault")
 	switch kind {
 	case "ill-typed":
 		a := rapid.SampledFrom([]string{"flagOn", "i8", "i64", "plainInt", "u16", "u64", "f32", "f64Val", "lvl", "rot", "fullPolicy"}).Draw(t, "attr")
@@ -827,7 +842,16 @@ func injectFault(t *rapid.T, c config, m map[string]string) (string, bool) {
 		probe.del(a)
 		probe.Fields = append(probe.Fields, attr(a, v))
 		return kind + ":" + a + "=" + v, true
+	case "bad-property":
+		k := rapid.SampledFrom([]string{"bufferCap", "enableCaller", "fastCaller"}).Draw(t, "badProp")
+		c.Props[k] = map[string]string{"bufferCap": rapid.SampledFrom([]string{"1GB", "ten", "10", "-1KB"}).Draw(t, "badCap"), "enableCaller": "maybe", "fastCaller": "2"}[k]
+		return kind + ":" + k + "=" + c.Props[k], true
 	case "unknown-type":
+		if rapid.IntRange(0, 4).Draw(t, "refType") == 0 {
+			// an appender reference with an explicit unknown type
+			c.Loggers["lgy"] = &node{Type: "Logger", Fields: []field{attr("tags", "_c15_y"), {Name: "appenderRef", List: []*node{{Type: "Bogus", Fields: []field{attr("ref", "p1")}}}}}}
+			return kind + ":appenderRef", true
+		}
 		switch rapid.IntRange(0, 3).Draw(t, "where") {
 		case 0:
 			probe.Type = "Nope"
